@@ -240,11 +240,31 @@ def forwarders(ctx, config, w):
     return n
 
 
+def symbol_resolves(ctx, config, w):
+    """`the symbol resolves to the stored unit`: the first unit in iteration
+    order carrying a unit's symbol is that unit (lookup model of C09 evaluated on
+    the extracted tables of every type)."""
+    n = 0
+    for q in w.qtypes:
+        if q.kind == "dimless":
+            continue
+        first = {}
+        for v in q.variants_const:
+            first.setdefault(q.tables["symbol"][v], v)
+        for v in q.variants_const:
+            n += 1
+            ctx.ob("symbol-resolves", "%s/%s/%s" % (config, q.path, v), first[q.tables["symbol"][v]] == v,
+                   "a value in %s displays with symbol %r, which resolves to %s" % (v, q.tables["symbol"][v][1], first[q.tables["symbol"][v]]), q.span,
+                   nontrivial=False)
+    return n
+
+
 def run(ctx):
     for config in ("f64-all", "dec-all"):
         w = ws.load(config)
         ctx.configs.append(config)
         amt = ws.amount_type(config)
+        symbol_resolves(ctx, config, w)
         quantity_fmt(ctx, config, w.U, amt)
         unit_fmt(ctx, config, w.U)
         rate_fmt(ctx, config, w.U)
